@@ -7,7 +7,9 @@ import (
 	"go/printer"
 	"go/token"
 	"go/types"
+	"os"
 	"sort"
+	"strconv"
 	"strings"
 	"sync"
 
@@ -712,3 +714,92 @@ func ContainsAssign(n ast.Node) bool {
 	})
 	return found
 }
+
+// Shape renders an expression with the names of the enclosing function's parameters replaced by their position
+// (#0 is the receiver if there is one, then the parameters in order) and every other local variable by `_`: a key
+// built from it names the construct and survives a renaming of locals.
+func Shape(fset *token.FileSet, info *types.Info, fd *ast.FuncDecl, e ast.Expr) string {
+	pos := map[types.Object]int{}
+	k := 0
+	add := func(fl *ast.FieldList) {
+		if fl == nil {
+			return
+		}
+		for _, f := range fl.List {
+			if len(f.Names) == 0 {
+				k++
+			}
+			for _, nm := range f.Names {
+				if o := info.Defs[nm]; o != nil {
+					pos[o] = k
+				}
+				k++
+			}
+		}
+	}
+	add(fd.Recv)
+	add(fd.Type.Params)
+	// substitute in the source text of the expression (the syntax tree is shared and is not touched)
+	tf := fset.File(e.Pos())
+	if tf == nil {
+		return Src(fset, e)
+	}
+	srcFilesMu.Lock()
+	text, ok := srcFiles[tf.Name()]
+	if !ok {
+		text, _ = os.ReadFile(tf.Name())
+		srcFiles[tf.Name()] = text
+	}
+	srcFilesMu.Unlock()
+	lo, hi := tf.Offset(e.Pos()), tf.Offset(e.End())
+	if lo < 0 || hi > len(text) || lo >= hi {
+		return Src(fset, e)
+	}
+	type repl struct {
+		lo, hi int
+		name   string
+	}
+	var repls []repl
+	ast.Inspect(e, func(n ast.Node) bool {
+		id, ok := n.(*ast.Ident)
+		if !ok {
+			return true
+		}
+		o := info.Uses[id]
+		if o == nil {
+			o = info.Defs[id]
+		}
+		v, isVar := o.(*types.Var)
+		if !isVar || v.IsField() {
+			return true
+		}
+		if i, isParam := pos[o]; isParam {
+			repls = append(repls, repl{tf.Offset(id.Pos()), tf.Offset(id.End()), "#" + strconv.Itoa(i)})
+		} else if v.Parent() != nil && v.Pkg() != nil && v.Parent() != v.Pkg().Scope() {
+			repls = append(repls, repl{tf.Offset(id.Pos()), tf.Offset(id.End()), "_"})
+		}
+		return true
+	})
+	sort.Slice(repls, func(i, j int) bool { return repls[i].lo < repls[j].lo })
+	var b strings.Builder
+	at := lo
+	for _, r := range repls {
+		if r.lo < at || r.hi > hi {
+			continue
+		}
+		b.Write(text[at:r.lo])
+		b.WriteString(r.name)
+		at = r.hi
+	}
+	b.Write(text[at:hi])
+	out := strings.Join(strings.Fields(b.String()), " ")
+	if len(out) > 160 {
+		out = out[:160] + "…"
+	}
+	return out
+}
+
+var (
+	srcFilesMu sync.Mutex
+	srcFiles   = map[string][]byte{}
+)
